@@ -208,7 +208,8 @@ pub fn translate(src: &str, opts: &Options) -> Res<String> {
         if !items.is_empty() {
             out.push_str(&format!("   * {title}\n"));
             for a in items {
-                out.push_str(&format!("       {a}\n"));
+                // source text must not close (or nest) the header comment
+                out.push_str(&format!("       {}\n", a.replace("-/", "- /").replace("/-", "/ -")));
             }
         }
     };
